@@ -53,7 +53,14 @@ def run_density(setup, nprocs, G, perturbed, cplx, policy_seed, warm=None):
         blk = np.transpose(G, (0, 2, 1, 3))[L.starts[0]:L.ends[0], L.starts[1]:L.ends[1]]
         g._f[:] = blk
         rho._f[:] = (7.5 - 3.25j) if cplx else 7.5  # stale content (as left by the in-place FFT of the previous step: non-real) must be overwritten
+        import copy
+        consts = copy.copy(setup['constants'])           # this rank's own Constants object (ranks are threads here)
         df = DensityFinder(setup['quad_degree'], bs[3], eta, consts)
+        # the finder has been built: its equilibrium table and weights are fixed.  The Constants object it was given is changed
+        # afterwards (re-used for another set-up); the oracle uses the values of construction time
+        saved_consts = {k: getattr(consts, k) for k in ('CN0', 'kN0', 'deltaRN0', 'CTi', 'kTi', 'deltaRTi', 'rp')}
+        consts.kN0, consts.deltaRN0, consts.CTi, consts.kTi = 3.0 * consts.kN0, 0.5 * consts.deltaRN0, 2.0 * consts.CTi, 0.5 * consts.kTi
+        consts.CN0 = 0.31
         if warm is not None:
             # the same DensityFinder is first used for a grid that is decomposed differently over the same processes (and holds
             # other data): nothing of that call may survive into the next one
@@ -67,6 +74,8 @@ def run_density(setup, nprocs, G, perturbed, cplx, policy_seed, warm=None):
             df.getPerturbedRho(g, rho)
         else:
             df.getRho(g, rho)
+        for k_, v_ in saved_consts.items():
+            setattr(consts, k_, v_)
         Lr = rho.getLayout('v_parallel_2d')
         return {'starts': [int(x) for x in L.starts], 'ends': [int(x) for x in L.ends],
                 'rstarts': [int(x) for x in Lr.starts], 'block': np.array(blk), 'rho': np.array(rho._f),
@@ -83,7 +92,11 @@ def exact_tools(setup):
     n = bs.nbasis
     M = [[H.frac_basis(kn, d, j, x) for j in range(n)] for x in xs]
     integ = [(kn[j + d + 1] - kn[j]) / (d + 1) for j in range(n)]
-    Minv = H.frac_inverse(M)
+    try:
+        Minv = H.frac_inverse(M)
+    except StopIteration:
+        raise RuntimeError('exact_tools: singular collocation matrix: degree %d, breaks %r, points %r, cubic_uniform %r' % (
+            d, [float(b) for b in bs.breaks], [float(x) for x in xs], bool(bs.cubic_uniform)))
     # c = Minv u ; integral = integ . c
     W = [sum(integ[j] * Minv[j][l] for j in range(n)) for l in range(n)]
     return W
@@ -127,8 +140,24 @@ def one_setup(chk, drv, it, stats):
         consts = {'CTi': rng.uniform(0.6, 1.4), 'kTi': rng.uniform(0.05, 0.4), 'deltaRTi': rng.uniform(0.8, 3.0),
                   'CTe': rng.uniform(0.6, 1.4), 'kTe': rng.uniform(0.05, 0.4), 'deltaRTe': rng.uniform(0.8, 3.0),
                   'kN0': rng.uniform(0.02, 0.1), 'deltaRN0': rng.uniform(1.5, 4.0)}
+    # v grids: equidistant, or graded towards one end (asymmetric); (periodic v spaces: the weights are C09's subject, the exact
+    # oracle here is written for clamped spaces)
+    vkind = rng.choice(['uniform', 'uniform', 'graded', 'graded'])
+    if vkind != 'uniform':
+        uniform_flag = uniform_flag and vkind == 'periodic'
+        nv = max(nv, vdeg + 2)
+
+    def vbreaks(n, lo, hi):
+        if 'graded' not in vkind:
+            return np.linspace(lo, hi, n)
+        w = np.array([1.0 + 0.35 * k for k in range(n - 1)]) * np.array([rng.uniform(0.8, 1.2) for _ in range(n - 1)])
+        x = np.concatenate([[0.0], np.cumsum(w)])
+        out_ = lo + (hi - lo) * x / x[-1]
+        out_[0], out_[-1] = lo, hi                      # the end points exactly
+        return out_
     setup = H.make_setup([nr, nth, nz, nv], [rdeg, min(3, nth - 1) or 1, min(3, nz - 1) or 1, vdeg], uniform_flag,
-                         vrange=rng.choice([(-7.32, 7.32), (0.0, 10.0), (-3.0, 5.0)]), **consts)
+                         vrange=rng.choice([(-7.32, 7.32), (0.0, 10.0), (-3.0, 5.0)]),
+                         period=(False, True, True, vkind.startswith('periodic')), vbreaks=vbreaks, **consts)
     setup['quad_degree'] = rng.choice([3, 6])
     perturbed = rng.random() < 0.7
     cplx = rng.random() < 0.5
@@ -151,7 +180,7 @@ def one_setup(chk, drv, it, stats):
         G = sum(co[..., k:k + 1] * v[None, None, None, :] ** k for k in range(vdeg + 1))
     W = exact_tools(setup)
     grids = proc_grids(chk.n(6, 6), nr, nz)
-    case0 = {'npts': [nr, nth, nz, nv], 'vdeg': vdeg, 'uniform_flag': uniform_flag, 'perturbed': perturbed, 'constants': consts,
+    case0 = {'npts': [nr, nth, nz, nv], 'vdeg': vdeg, 'uniform_flag': uniform_flag, 'perturbed': perturbed, 'constants': consts, 'v_grid': vkind,
              'complex_rho': cplx, 'kind': kind, 'quad_degree': setup['quad_degree']}
     serial = None
     # exact integral at every global point (oracle)
